@@ -424,6 +424,10 @@ func (r *Reconciler) applyChange(ctx context.Context, transaction *configapi.Tra
 			return controller.Result{}, false, err
 		} else if err != nil {
 			code := status.Code(err)
+			if _, ok := err.(*errors.TypedError); ok {
+				// the southbound client returns typed errors (errors.FromGRPC), which carry no gRPC status
+				code = errors.Status(err).Code()
+			}
 			switch code {
 			case codes.Unavailable, codes.Canceled, codes.DeadlineExceeded:
 				return controller.Result{}, false, err
@@ -779,6 +783,10 @@ func (r *Reconciler) applyRollback(ctx context.Context, transaction *configapi.T
 			return controller.Result{}, false, err
 		} else if err != nil {
 			code := status.Code(err)
+			if _, ok := err.(*errors.TypedError); ok {
+				// the southbound client returns typed errors (errors.FromGRPC), which carry no gRPC status
+				code = errors.Status(err).Code()
+			}
 			switch code {
 			case codes.Unavailable, codes.Canceled, codes.DeadlineExceeded:
 				return controller.Result{}, false, err
